@@ -63,7 +63,7 @@ func (d DocSpec) Clone() DocSpec {
 var (
 	ElemNames = []string{"a", "b", "c", "a", "b", "a-1", "x:a", "d", "y:b"}
 	AttrNames = []string{"id", "k", "id", "x:k", "n", "xml:lang", "a", "b"}
-	Values    = []string{"1", "2", "21", "3", "3.5", "-1", "0", "abc", "ab", "b", "a", "", " ", " a  b ", "NaN", "1e2", "10", "aXb", "Abc", "é", "中a", "-0", ".5", "+1", " 7 ", "7", "\n 1\n", "2 "}
+	Values    = []string{"1", "2", "21", "3", "3.5", "-1", "0", "abc", "ab", "b", "a", "", " ", " a  b ", "NaN", "1e2", "10", "aXb", "Abc", "é", "中a", "-0", ".5", "+1", " 7 ", "7", "\n 1\n", "2 ", "0.1", "0.2", "0.7"}
 	NSURLs    = []string{"", "", "urn:x", "urn:y"}
 )
 
@@ -76,7 +76,9 @@ var TightValues = []string{"", "a", "b", "ab", "ba", "a", "b", "1", "12", "2"}
 // NumValues: several spellings of few numbers (and some non-numbers that
 // trimming or lenient parsing would turn into them), for runs about sum() and
 // number(): the collision class of anything keyed by a normalised spelling.
-var NumValues = []string{"1", " 1", "1 ", "01", "1.0", "+1", "1e0", "7", " 7 ", "\n7\n", "7.", "0", "-0", "", " ", "NaN", "x1", "2", "2 ", "0x1", "1_0", "Inf"}
+var NumValues = []string{"1", " 1", "1 ", "01", "1.0", "+1", "1e0", "7", " 7 ", "\n7\n", "7.", "0", "-0", "", " ", "NaN", "x1", "2", "2 ", "0x1", "1_0", "Inf",
+	// sums of these depend on the order of addition (floating point is not associative)
+	"0.1", "0.2", "0.3", "0.7", "1.1", "1e16", "-1e16", "0.1", "0.2"}
 
 func GenDoc(r *Rng, maxNodes int) DocSpec {
 	if r.Chance(1, 3) {
